@@ -811,6 +811,8 @@ class RF24:
         # self._reg_write(0xE3)
         up_cnt = 0
         self._ce_pin.value = True
+        # the STATUS byte clocked out while the flags were being cleared still shows them
+        up_cnt += self.update()
         while not self._in[0] & 0x30:
             up_cnt += self.update()
         # self._ce_pin.value = False
